@@ -55,6 +55,11 @@ CLAIMED["C06"] = ("predicated path enumeration (E4), lockset with foreign locks 
          "go/ssa model; sync.RWMutex semantics; interface/function-value callees assumed not to retain slices",
          "DESIGN.md §3 C06")
 
+CLAIMED["C08"] = ("effect (may-block) analysis over the call closure incl. interface implementers (E5a), per-path critical-section scan for blocking constructs (E3+E5a), predicated path enumeration for timer bracketing and queue representation (E4), store-ownership scan (E5c)",
+         "Static, all-paths: the feed callback's whole closure is free of blocking constructs; nothing blocking runs while any lock of match/coalesce/cache/ctree/metadata/latency is held (client fields bound to the feed, module visitors checked); a pending key is never appended twice and a dequeued key is forgotten; every stream Send is bracketed by Reset/Stop of the timer whose expiry terminates the RPC (the rule that found the fixed sync-response defect); duplicate counts go only into a proto.Clone and come from Queue.Next. Necessary conditions of non-interference, the backlog bound and the timeout for every stall pattern; timing itself is not decided.",
+         "go/ssa model; blocking table for library calls (listed assumption); cache client wiring as in cmd/gnmi_collector; sync.Mutex acquisition judged through its critical sections",
+         "DESIGN.md §3 C08")
+
 NA_REASON = {}
 DEFAULT_NA = "check not built yet in this round (static rules designed in DESIGN.md section 3); not claimed until the rule runs"
 
